@@ -43,12 +43,12 @@ def _imports():
 # ---------------------------------------------------------------------------
 # Generators
 
-methods = st.one_of(
+methods = gen.pick(
     st.sampled_from(["m", "a.b", "", "é", "_x", "__dunder__", "rpc.x"]),
     st.text(gen.TEXT_ALPHABET, max_size=6),
 )
 bad_methods = st.sampled_from([None, 0, 1, 1.5, True, ("a",), ["a"]])
-good_params = st.one_of(
+good_params = gen.pick(
     st.just(ABSENT),
     st.none(),
     st.lists(gen.json_values(6), max_size=3),
@@ -116,8 +116,8 @@ nested_convertible_params = st.sampled_from([
 ])
 
 
-scalar_params = st.one_of(st.integers(-3, 3), st.text(max_size=3), st.booleans(), st.floats(allow_nan=False, allow_infinity=False, width=16))
-rpcids = st.one_of(
+scalar_params = gen.pick(st.integers(-3, 3), st.text(max_size=3), st.booleans(), st.floats(allow_nan=False, allow_infinity=False, width=16))
+rpcids = gen.pick(
     st.none(), st.just(""), st.just(0), st.just(0.0), st.just(-0.0),
     st.integers(-9, 9), st.integers(-2 ** 53, 2 ** 53),
     st.floats(allow_nan=False, allow_infinity=False),
@@ -131,8 +131,8 @@ flags = st.sampled_from([None, False, True])
 @st.composite
 def message_cases(draw):
     kind = draw(st.sampled_from(["dumps", "dumps", "dump"]))
-    method = draw(st.one_of(methods, methods, methods, bad_methods))
-    params = draw(st.one_of(good_params, good_params, good_params, scalar_params, convertible_params, nested_convertible_params))
+    method = draw(gen.pick(methods, methods, methods, bad_methods))
+    params = draw(gen.pick(good_params, good_params, good_params, scalar_params, convertible_params, nested_convertible_params))
     return {
         "kind": kind,
         "method": method,
@@ -150,13 +150,13 @@ def message_cases(draw):
 def fault_cases(draw):
     return {
         "kind": draw(st.sampled_from(["fault.dumps", "fault.dump", "fault.response", "fault.dumpmethod"])),
-        "code": draw(st.one_of(st.integers(-40000, 40000), st.sampled_from([-32700, -32600, -32000, 0, 1]))),
+        "code": draw(gen.pick(st.integers(-40000, 40000), st.sampled_from([-32700, -32600, -32000, 0, 1]))),
         "message": draw(st.text(gen.TEXT_ALPHABET, max_size=8)),
-        "data": draw(st.one_of(st.none(), gen.json_values(6))),
+        "data": draw(gen.pick(st.none(), gen.json_values(6))),
         "rpcid": draw(rpcids),
         "version": draw(versions),
         "resp": draw(flags),
-        "method": draw(st.one_of(st.none(), st.just("m"))),
+        "method": draw(gen.pick(st.none(), st.just("m"))),
         "cfgver": draw(st.sampled_from([1.0, 2.0])),
         "jsonclass": draw(st.booleans()),
     }
